@@ -156,6 +156,24 @@ func RuleFromJSON(ctx *Context, js []byte) (*Rule, error) {
 		return nil, err
 	}
 
+	if r.When != nil && r.When.Pattern == nil {
+		// The event pattern can also be given directly as the
+		// 'when' value.  That's how GetRulePatterns (which
+		// indexes the rule) and the linear state's rule search
+		// read such a 'when', so the rule is found for matching
+		// events; it has to be matched with the same pattern
+		// then (and not with none, which binds nothing).
+		var given struct {
+			When map[string]interface{} `json:"when"`
+		}
+		if err := json.Unmarshal(js, &given); err != nil {
+			return nil, err
+		}
+		if _, wrapped := given.When["pattern"]; !wrapped {
+			r.When.Pattern = given.When
+		}
+	}
+
 	if r.When == nil && r.Schedule == "" {
 		return nil, NewSyntaxError("need either a 'when' or a 'schedule'")
 	}
